@@ -185,6 +185,23 @@ def in_section(src, lineno):
     return depth > 0
 
 
+def coq_direct_deps(f):
+    """Pi2-internal files a .v file Requires directly"""
+    deps = []
+    src = strip_comments(open(os.path.join(COQ, f)).read())
+    for m in re.finditer(r'From\s+Pi2\s+Require\s+(?:Import|Export)?\s*([\w.\s]+?)\.\s', src + ' '):
+        for mod in m.group(1).split():
+            cand = mod.replace('.', '/') + '.v'
+            if os.path.exists(os.path.join(COQ, cand)) and cand not in deps:
+                deps.append(cand)
+    for m in re.finditer(r'Require\s+(?:Import|Export)?\s*((?:Pi2\.[\w.]+\s*)+)\.\s', src + ' '):
+        for mod in m.group(1).split():
+            cand = mod[len('Pi2.'):].replace('.', '/') + '.v'
+            if os.path.exists(os.path.join(COQ, cand)) and cand not in deps:
+                deps.append(cand)
+    return deps
+
+
 def coq_closure(vfile):
     """Pi2-internal dependency closure of a .v file (by its Require lines)"""
     seen = []
@@ -193,22 +210,32 @@ def coq_closure(vfile):
         if f in seen:
             return
         seen.append(f)
-        src = strip_comments(open(os.path.join(COQ, f)).read())
-        for m in re.finditer(r'(?:From\s+Pi2\s+)?Require\s+(?:Import\s+|Export\s+)?([^.]*(?:\.[A-Za-z_][\w.]*)*)\s*\.', src):
-            pass
-        for m in re.finditer(r'From\s+Pi2\s+Require\s+(?:Import|Export)?\s*([\w.\s]+?)\.\s', src + ' '):
-            for mod in m.group(1).split():
-                cand = mod.replace('.', '/') + '.v'
-                if os.path.exists(os.path.join(COQ, cand)):
-                    visit(cand)
-        for m in re.finditer(r'Require\s+(?:Import|Export)?\s*((?:Pi2\.[\w.]+\s*)+)\.\s', src + ' '):
-            for mod in m.group(1).split():
-                cand = mod[len('Pi2.'):].replace('.', '/') + '.v'
-                if os.path.exists(os.path.join(COQ, cand)):
-                    visit(cand)
+        for d in coq_direct_deps(f):
+            visit(d)
 
     visit(vfile)
     return seen
+
+
+def coq_fresh(files):
+    """those files whose .vo is newer than the source AND than the (fresh) .vo of everything they Require: after a failed make a stale .vo
+    of a file whose dependency changed must not be counted as a discharged obligation"""
+    memo = {}
+
+    def fresh(f):
+        if f in memo:
+            return memo[f]
+        memo[f] = False
+        vo = os.path.join(COQ, f + 'o')
+        ok = os.path.exists(vo) and os.path.getmtime(vo) >= os.path.getmtime(os.path.join(COQ, f))
+        if ok:
+            for d in coq_direct_deps(f):
+                if not fresh(d) or os.path.getmtime(os.path.join(COQ, d + 'o')) > os.path.getmtime(vo):
+                    ok = False
+                    break
+        memo[f] = ok
+        return ok
+    return [f for f in files if fresh(f)]
 
 
 STMT = re.compile(r'^\s*(?:Local\s+|Global\s+|#\[[^\]]*\]\s*)?(Lemma|Theorem|Example|Corollary|Fact|Remark|Proposition)\s+([\w\']+)', re.M)
@@ -244,8 +271,7 @@ def prop_check(cid, timeout=1500):
     if not ok:
         res['log'] = log[-6000:]
         # which files of the closure did compile: count their statements as discharged
-        done = [f for f in files if os.path.exists(os.path.join(COQ, f + 'o'))
-                and os.path.getmtime(os.path.join(COQ, f + 'o')) >= os.path.getmtime(os.path.join(COQ, f))]
+        done = coq_fresh(files)
         res['discharged'] = len(count_obligations(done))
         return res
     # re-run coqc on the property file alone to capture Print Assumptions output
